@@ -154,15 +154,19 @@ impl Gossip {
         // have been dropped and we didn't clean up yet. In this case we'll ignore the existing
         // entry in "senders" and continue to create a new gossip session, overwriting the "dead"
         // entries.
+        //
+        // Checking the counter and incrementing it needs to happen in one atomic step (see
+        // `try_clone`), otherwise the last handle could get dropped in-between and we would
+        // return a handle for an overlay we're leaving at the same time.
         if let Some((to_gossip_tx, from_gossip_tx, guard)) = self.senders.read().await.get(&topic)
-            && guard.has_subscriptions()
+            && let Some(guard) = guard.try_clone()
         {
             return Ok(GossipHandle::new(
                 topic,
                 max_message_size,
                 to_gossip_tx.clone(),
                 from_gossip_tx.clone(),
-                guard.clone(),
+                guard,
             ));
         }
 
@@ -424,13 +428,40 @@ impl TopicDropGuard {
     }
 
     /// Returns current number of references to this topic.
+    #[cfg(test)]
     fn counter(&self) -> usize {
         self.counter.load(std::sync::atomic::Ordering::SeqCst)
     }
 
-    /// Returns true if there's still one or more references for this topic used.
-    fn has_subscriptions(&self) -> bool {
-        self.counter() >= INITIAL_COUNTER
+    /// Clone guard and increment the reference counter, but only if there's still one or more
+    /// references for this topic around.
+    ///
+    /// Returns `None` if all references have been dropped already. The check and the increment
+    /// take place in a single atomic operation: a concurrent drop of the last reference either
+    /// happens before (and we return `None`) or after (and doesn't see itself as the last one).
+    fn try_clone(&self) -> Option<Self> {
+        let value = self
+            .counter
+            .fetch_update(
+                std::sync::atomic::Ordering::SeqCst,
+                std::sync::atomic::Ordering::SeqCst,
+                |value| (value >= INITIAL_COUNTER).then_some(value + 1),
+            )
+            .ok()?;
+
+        trace!(
+            topic = self.topic.fmt_short(),
+            counter = value + 1,
+            actor_id = %self.actor_ref.get_id(),
+            "clone topic drop guard +1"
+        );
+
+        Some(Self {
+            topic: self.topic,
+            counter: self.counter.clone(),
+            actor_ref: self.actor_ref.clone(),
+            ignore_drop: false,
+        })
     }
 
     /// Clone guard, but don't increment reference counter.
